@@ -1,6 +1,6 @@
 SPECIFICATION Spec
 CONSTANTS
-  Deep = FALSE
-  Mode = "mutants"
+  Deep = TRUE
+  Mode = "noncanon"
 INVARIANTS Emit
 CHECK_DEADLOCK FALSE
